@@ -4,6 +4,7 @@ From Verif Require Import Base Cal Tables Period Builder BuilderProofs.
 Import ListNotations.
 Open Scope Z_scope.
 
-Theorem eternity_spellings_agree : forall s, canon_key (KEternity s) = Ok eternity_period.
-Proof. exact canon_key_eternity. Qed.
-Print Assumptions eternity_spellings_agree.
+Theorem spelling_irrelevant : forall x x', same_reading x x' ->
+  forall s doc, build_from_entities x s doc = build_from_entities x' s doc.
+Proof. exact build_from_entities_reading. Qed.
+Print Assumptions spelling_irrelevant.
